@@ -110,6 +110,21 @@ func (m slowStartMetrics) EmitCounter(name string, value interface{}, tags ...me
 	return m.Metrics.EmitCounter(name, value, tags...)
 }
 
+// watchSignal tells the harness when the native handler's call of Backend.Watch has returned.
+type watchSignal struct {
+	backend.Backend
+	ch chan error
+}
+
+func (w *watchSignal) Watch(ctx context.Context, prefix string, revision uint64) (<-chan []*proto.Event, error) {
+	c, err := w.Backend.Watch(ctx, prefix, revision)
+	select {
+	case w.ch <- err:
+	default:
+	}
+	return c, err
+}
+
 // brainStream is the in-process server side of a native Watch stream.
 type brainStream struct {
 	grpc.ServerStream
@@ -572,22 +587,31 @@ func (s *backendSuite) do(t []string) string {
 	case "bwatch":
 		// bwatch <id> <hexprefix> <rev>: the NATIVE Watch handler (pkg/server/brain) of a leader over this backend,
 		// on an in-process stream that records every response (header revision + the revisions of its events)
-		bs := brain.New(s.b, getMetrics(), service.NewPeerService(&leader.Stub{ElectionInfo: leader.ElectionInfo{LeaderAddress: "127.0.0.1:0", IsLeader: true}}, getMetrics(), s.b, service.Config{}))
-		st := &brainStream{ctx: ctx, hdrOK: true}
+		wb := &watchSignal{Backend: s.b, ch: make(chan error, 1)}
+		bs := brain.New(wb, getMetrics(), service.NewPeerService(&leader.Stub{ElectionInfo: leader.ElectionInfo{LeaderAddress: "127.0.0.1:0", IsLeader: true}}, getMetrics(), s.b, service.Config{}))
 		wctx, cancel := context.WithCancel(ctx)
-		st.ctx = wctx
+		st := &brainStream{ctx: wctx, cancel: cancel, hdrOK: true}
 		if s.bstreams == nil {
 			s.bstreams = map[string]*brainStream{}
 		}
-		st.cancel = cancel
-		s.bstreams[pos[1]] = st
 		go func() {
 			err := bs.Watch(&proto.WatchRequest{Key: unhx(pos[2]), Revision: atou(pos[3])}, st)
 			st.mu.Lock()
 			st.done, st.err = true, err
 			st.mu.Unlock()
 		}()
-		time.Sleep(20 * time.Millisecond) // let the handler subscribe (a watch from "now" must not miss the next write)
+		// the handler has registered with the backend (or was refused by it) when the backend's Watch returned
+		select {
+		case err := <-wb.ch:
+			if err != nil {
+				cancel()
+				return "bwatch " + pos[1] + " refused"
+			}
+		case <-time.After(10 * time.Second):
+			cancel()
+			return "bwatch " + pos[1] + " stuck"
+		}
+		s.bstreams[pos[1]] = st
 		return "bwatch " + pos[1] + " ok"
 	case "bdrain":
 		// bdrain <id> [want=<n>]: the events received so far (waits, bounded, for n); hdrok = no response's header
@@ -596,7 +620,10 @@ func (s *backendSuite) do(t []string) string {
 		if st == nil {
 			return "bdrain " + pos[1] + " nowatch"
 		}
-		want := atoi(opts["want"])
+		want := 0
+		if opts["want"] != "" {
+			want = atoi(opts["want"])
+		}
 		deadline := time.Now().Add(s.wait)
 		for {
 			st.mu.Lock()
